@@ -94,6 +94,44 @@ fn main() {
         }
     }
 
+    // ---- 0b. what is skipped or streamed is not held: a compressed packet of a few dozen kilobytes whose content is a padding
+    //          packet (or marker packets, or an unknown-tag packet) of 32 MB in front of a small literal; and a literal of
+    //          32 MB of zeros read through a fixed sink.  Peak memory follows the octets supplied (the compressed input).
+    {
+        use std::io::Write;
+        let big = 32usize << 20;
+        let frame5 = |tag: u8, n: usize| -> Vec<u8> { let mut v = vec![0xC0 | tag, 0xFF]; v.extend((n as u32).to_be_bytes()); v };
+        let lit_hello = { let mut v = vec![0xC0 | 11, 11, b'b', 0, 0, 0, 0, 0]; v.extend_from_slice(b"hello"); v };
+        let shapes: Vec<(&str, Vec<u8>, Option<&[u8]>)> = vec![
+            ("padding-then-literal", { let mut v = frame5(21, big); v.resize(v.len() + big, 0); v.extend_from_slice(&lit_hello); v }, Some(b"hello")),
+            ("unknown-tag-then-literal", { let mut v = frame5(60, big); v.resize(v.len() + big, 0); v.extend_from_slice(&lit_hello); v }, None),
+            ("big-literal", { let mut v = frame5(11, big + 6); v.extend_from_slice(&[b'b', 0, 0, 0, 0, 0]); v.resize(v.len() + big, 0); v }, None),
+        ];
+        for (name, inner, want) in shapes {
+            for alg in [1u8, 2] {
+                let mut comp = vec![alg];
+                let ok = if alg == 1 { let mut e = flate2::write::DeflateEncoder::new(&mut comp, flate2::Compression::default()); e.write_all(&inner).is_ok() && e.finish().is_ok() }
+                         else { let mut e = flate2::write::ZlibEncoder::new(&mut comp, flate2::Compression::default()); e.write_all(&inner).is_ok() && e.finish().is_ok() };
+                if !ok { continue; }
+                let mut d = frame5(8, comp.len()); d.extend_from_slice(&comp);
+                drop(comp);
+                let run = |d: &[u8]| -> Option<Vec<u8>> {
+                    let m = Message::from_bytes(d).ok()?;
+                    let mut dm = m.decompress().ok()?;
+                    let mut sink = [0u8; 4096]; let mut head = Vec::new();
+                    loop { match dm.read(&mut sink) { Ok(0) => break, Ok(k) => { if head.len() < 16 { head.extend_from_slice(&sink[..k.min(16)]); } } Err(_) => return None } }
+                    Some(head)
+                };
+                let (mut r, mut peak, _t, mut dt) = measure(|| run(&d));
+                let bound = 192 * 1024 + 64 * d.len();
+                if peak > bound { let again = measure(|| run(&d)); r = again.0; peak = again.1; dt = again.3; }
+                let content_ok = match (&r, want) { (Ok(Some(h)), Some(w)) => &h[..] == w, (Ok(_), None) => true, _ => false };
+                let ok = r.is_ok() && peak <= bound && dt < 20.0 && content_ok;
+                out.case("", &[], &["skipped-not-held".into(), name.into(), alg.to_string(), d.len().to_string()], &format!("input={} inflates-to={} peak={peak} bound={bound} secs={:.2} read={}", d.len(), inner.len(), dt, match &r { Ok(Some(_)) => "to the end", Ok(None) => "error", Err(e) => e }), Some(ok), &format!("skipped-not-held-{name}"));
+            }
+        }
+    }
+
     // ---- 1. sizes declared but not supplied: every position of the first octets of every small fixture packet
     //        overwritten with 0xff.. (1, 2, 4 octets wide); allocation must follow the input, not the claim
     {
